@@ -34,6 +34,15 @@ func c08SignedMember(t *vm.Tape, inner *tar.Header, data []byte, tamper int) str
 	case 2: // plain unsigned record appended by a foreign tar writer
 		outer.Name = "/foreign"
 		outer.PAXRecords = nil
+	case 3: // embedded header and its signature kept byte for byte, but the (unsigned) outer header announces a
+		// shorter stream and the stream is cut accordingly
+		outer.PAXRecords[records.STFSRecordEmbeddedHeader] = string(embedded)
+		outer.PAXRecords[records.STFSRecordSignature] = vm.String("hdrsig", 0, 1, "A!")
+		if len(data) > 0 {
+			n := vm.Concretize(vm.Int("outerSize", 0, len(data)-1))
+			data = data[:n]
+			outer.Size = int64(n)
+		}
 	}
 	t.AddMember(outer, 3, int64(len(data)), data)
 	return string(embedded)
@@ -90,7 +99,7 @@ func (d *c08Dst) Close() error                { d.closed = true; return nil }
 // returns nil for a regular member only after the content signature was checked over all bytes.
 func Harness_C08_fetch_gate() {
 	format := c08SigFormats[vm.Choice("format", 2)]
-	tamper := vm.Choice("tamper", 3)
+	tamper := vm.Choice("tamper", 4)
 	kind := vm.Choice("kind", 3)
 	t := vm.NewTape("drive")
 	data := []byte{vm.Byte("d0", "xy"), vm.Byte("d1", "xy"), vm.Byte("d2", "xy")}
@@ -126,22 +135,26 @@ func Harness_C08_fetch_gate() {
 	vm.Assert("C08.fetch_no_output_before_header_verified", (!dstRequested && !mkdirRequested) || ok)
 	vm.Assert("C08.fetch_nil_implies_header_verified", err != nil || ok)
 	if kind == 0 {
+		// nil => the verification primitive accepted exactly the bytes that were delivered (all of them, up to
+		// end of stream); with an untampered stream these are the written bytes
 		contentOK := false
 		for _, sv := range vm.StreamVerifies {
-			if sv.Result && sv.SawEOF && sv.BytesSeen == 3 {
+			if sv.Result && sv.SawEOF && sv.BytesSeen == len(dst.data) {
 				contentOK = true
 			}
 		}
 		if format == config.SignatureFormatPGPKey {
 			contentOK = false
 			for _, ev := range vm.VerifyEvents {
-				if ev.Result && ev.Message == string(data) {
+				if ev.Result && ev.Message == string(dst.data) {
 					contentOK = true
 				}
 			}
 		}
 		vm.Assert("C08.fetch_nil_implies_content_verified_over_all_bytes", err != nil || contentOK)
-		vm.Assert("C08.fetch_nil_implies_exact_bytes", err != nil || string(dst.data) == string(data))
+		if tamper != 3 {
+			vm.Assert("C08.fetch_nil_implies_exact_bytes", err != nil || string(dst.data) == string(data))
+		}
 	}
 	vm.Cover("C08.fetch_accepts_good", err == nil && kind == 0)
 	vm.Cover("C08.fetch_rejects", err != nil)
